@@ -46,11 +46,12 @@ type loopInfo struct {
 	header  *ssa.BasicBlock
 	blocks  map[*ssa.BasicBlock]bool
 	ordinal int
-	writes  map[string]bool
+	writes  map[string]*wsEntry
 	spec    *spec.LoopSpec
 	// values captured at the header for decreases
 	decr0 []string
 	hdrEnv *env
+	freshNames map[string]bool
 }
 
 // ---------------------------------------------------------------- CFG helpers
@@ -163,6 +164,8 @@ func (c *fctx) runBody(fr *frame, entryCond string, st *state) []retInfo {
 		if fr.contract != nil {
 			li.spec = fr.contract.Loops[li.ordinal]
 		}
+	}
+	for _, li := range fr.loops {
 		li.writes = c.loopWriteSet(fr, li)
 	}
 	for _, b := range order {
@@ -230,9 +233,39 @@ func (c *fctx) runBody(fr *frame, entryCond string, st *state) []retInfo {
 				if srt == "" {
 					continue
 				}
-				cur.h[k] = c.fresh("Hh."+k, srt)
+				pre := c.region(cur, k, srt)
+				nh := c.fresh("Hh."+k, srt)
+				cur.h[k] = nh
+				// frame: cells that existed before the loop and are not rooted at a loop-invariant
+				// written root keep their value (all other writes in the loop go to fresh objects)
+				if we := li.writes[k]; !we.full && strings.HasPrefix(srt, "(Array Int ") && k != "alloc" {
+					guardAlloc := preAlloc
+					if we.fresh0 {
+						guardAlloc = "alloc0"
+					}
+					conds := []string{fmt.Sprintf("(select %s x!f)", guardAlloc)}
+					okRoots := true
+					for _, r := range we.roots {
+						rv, ok := fr.vals[r.v]
+						if !ok {
+							if _, isP := r.v.(*ssa.Parameter); !isP {
+								okRoots = false
+								break
+							}
+							rv = c.operand(fr, r.v)
+						}
+						t := c.termOf(rv, "loop root")
+						if r.slice {
+							t = "(sbase " + t + ")"
+						}
+						conds = append(conds, fmt.Sprintf("(not (= x!f %s))", t))
+					}
+					if okRoots {
+						c.assume(fmt.Sprintf("(forall ((x!f Int)) (! (=> %s (= (select %s x!f) (select %s x!f))) :pattern ((select %s x!f))))", and(conds...), nh, pre, nh))
+					}
+				}
 			}
-			if li.writes["alloc"] {
+			if li.writes["alloc"] != nil {
 				na := c.region(cur, "alloc", "(Array Int Bool)")
 				c.assume(fmt.Sprintf("(forall ((x!a Int)) (! (=> (select %s x!a) (select %s x!a)) :pattern ((select %s x!a))))", preAlloc, na, preAlloc))
 			}
@@ -413,7 +446,84 @@ func (c *fctx) termOf(v val, what string) string {
 
 // ---------------------------------------------------------------- loads / stores
 
-func (c *fctx) elemKey(elemSort string) string  { return "E:" + elemSort }
+func typeKey(t types.Type) string { return shortType(types.Unalias(t)) }
+
+func (c *fctx) elemKey(et types.Type) string {
+	k := "E:" + typeKey(et)
+	c.keyTypes[k] = et
+	return k
+}
+func (c *fctx) cellKey(t types.Type) string {
+	k := "P:" + typeKey(t)
+	c.keyTypes[k] = t
+	return k
+}
+
+// closedHeapAxioms: the heap at function entry is closed under reachability — every
+// pointer, slice or map stored in it refers to memory that was allocated at entry.
+func (c *fctx) closedHeapAxioms() []string {
+	var keys []string
+	for k := range c.regions {
+		keys = append(keys, k)
+	}
+	sort.Strings(keys)
+	var out []string
+	refFact := func(t types.Type, term string) string {
+		switch types.Unalias(t).Underlying().(type) {
+		case *types.Pointer, *types.Map, *types.Chan:
+			return fmt.Sprintf("(or (= %s 0) (select alloc0 %s))", term, term)
+		case *types.Slice:
+			return fmt.Sprintf("(or (= (sbase %s) 0) (select alloc0 (sbase %s)))", term, term)
+		}
+		return ""
+	}
+	for _, k := range keys {
+		h := q("H0." + k)
+		var t types.Type
+		switch {
+		case strings.HasPrefix(k, "F:"):
+			for _, si := range c.S.structs {
+				for _, f := range si.Fields {
+					if k == "F:"+si.Name+"."+f.Name {
+						t = f.T
+					}
+				}
+			}
+			if t == nil {
+				continue
+			}
+			if f := refFact(t, "(select "+h+" r!h)"); f != "" {
+				out = append(out, fmt.Sprintf("(assert (forall ((r!h Int)) (! %s :pattern ((select %s r!h)))))", f, h))
+			}
+		case strings.HasPrefix(k, "P:"):
+			t = c.keyTypes[k]
+			if t == nil {
+				continue
+			}
+			if f := refFact(t, "(select "+h+" r!h)"); f != "" {
+				out = append(out, fmt.Sprintf("(assert (forall ((r!h Int)) (! %s :pattern ((select %s r!h)))))", f, h))
+			}
+		case strings.HasPrefix(k, "E:"):
+			t = c.keyTypes[k]
+			if t == nil {
+				continue
+			}
+			if f := refFact(t, "(select (select "+h+" r!h) i!h)"); f != "" {
+				out = append(out, fmt.Sprintf("(assert (forall ((r!h Int) (i!h Int)) (! %s :pattern ((select (select %s r!h) i!h)))))", f, h))
+			}
+		}
+	}
+	return out
+}
+func (c *fctx) mapHasKey(mt *types.Map) string { return "MH:" + typeKey(mt) }
+func (c *fctx) mapValKey(mt *types.Map) string { return "MV:" + typeKey(mt) }
+func (c *fctx) mapLenKey(mt *types.Map) string { return "ML:" + typeKey(mt) }
+func (c *fctx) mapHasSort(mt *types.Map) string {
+	return "(Array Int (Array " + c.S.SortOf(mt.Key()) + " Bool))"
+}
+func (c *fctx) mapValSort(mt *types.Map) string {
+	return "(Array Int (Array " + c.S.SortOf(mt.Key()) + " " + c.S.SortOf(mt.Elem()) + "))"
+}
 func (c *fctx) elemSort(elemSort string) string { return "(Array Int (Array Int " + elemSort + "))" }
 
 // addrOfPointer turns a pointer-typed value into an address of its pointee.
@@ -428,7 +538,7 @@ func (c *fctx) addrOfPointer(v val, ptrT types.Type) *addr {
 	}
 	elem := pt.Elem()
 	srt := c.S.SortOf(elem)
-	return &addr{kind: aCell, key: "P:" + srt, ref: v.t, typ: elem, rootSort: srt}
+	return &addr{kind: aCell, key: c.cellKey(elem), ref: v.t, typ: elem, rootSort: srt}
 }
 
 // load reads the value at an address.
@@ -462,11 +572,30 @@ func (c *fctx) loadRoot(a *addr, st *state) string {
 		}
 		if arr, ok := types.Unalias(a.rootType()).Underlying().(*types.Array); ok {
 			es := c.S.SortOf(arr.Elem())
-			return fmt.Sprintf("(select %s %s)", c.region(st, c.elemKey(es), c.elemSort(es)), a.ref)
+			return fmt.Sprintf("(select %s %s)", c.region(st, c.elemKey(arr.Elem()), c.elemSort(es)), a.ref)
 		}
 		return fmt.Sprintf("(select %s %s)", c.region(st, a.key, "(Array Int "+a.rootSort+")"), a.ref)
 	}
 	return "0"
+}
+
+// initialRegion reports whether the region an address lives in still is the symbol it had at function entry.
+func (c *fctx) initialRegion(a *addr, st *state) bool {
+	switch a.kind {
+	case aField, aElem:
+		_, written := st.h[a.key]
+		return !written
+	case aCell:
+		if c.S.StructOf(a.rootType()) != nil {
+			return false
+		}
+		if _, ok := types.Unalias(a.rootType()).Underlying().(*types.Array); ok {
+			return false
+		}
+		_, written := st.h[a.key]
+		return !written
+	}
+	return false
 }
 
 func (a *addr) rootType() types.Type {
@@ -508,7 +637,7 @@ func (c *fctx) store(a *addr, v string, st *state, guard string, pos token.Pos, 
 		}
 		if arr, ok := types.Unalias(a.rootType()).Underlying().(*types.Array); ok {
 			es := c.S.SortOf(arr.Elem())
-			key, srt := c.elemKey(es), c.elemSort(es)
+			key, srt := c.elemKey(arr.Elem()), c.elemSort(es)
 			c.noteWrite(key, a.ref, guard, pos, fr, st)
 			c.setRegion(st, key, srt, fmt.Sprintf("(store %s %s %s)", c.region(st, key, srt), a.ref, newRoot))
 			return
@@ -541,7 +670,7 @@ func (c *fctx) updatePath(root string, path []pathStep, v string) string {
 func (c *fctx) noteWrite(key, root, guard string, pos token.Pos, fr *frame, st *state) {
 	for f := fr; f != nil; f = f.parent {
 		for _, li := range f.loops {
-			if f.cur != nil && li.blocks[f.cur] && li.writes != nil && !li.writes[key] {
+			if f.cur != nil && li.blocks[f.cur] && li.writes != nil && li.writes[key] == nil {
 				c.errorf("internal: write to region %s inside loop %d of %s is missing from the loop's write set", key, li.ordinal, f.fn)
 			}
 		}
